@@ -1,7 +1,8 @@
 import Driver.C07
+import Driver.C10
 namespace Driver
 
-def handlers : List Handler := [handleC07]
+def handlers : List Handler := [handleC07, handleC10]
 
 def dispatch (line : String) : String :=
   let toks := (line.trimAscii.toString.splitOn " ").filter (· ≠ "")
